@@ -9,7 +9,12 @@ event stream exactly (same accesses, locations, values, memory orders, barriers,
 lock operations, in order).  At every shared access the corresponding label of the proven L2
 model `UrcuVerif.Wfs` is replayed on its executable `step` (flush-immediately: harness runs are
 sequentially consistent) and must be enabled; every value the implementation read or returned is
-compared with the model's.
+compared with the model's.  RCU scheme (`wfs/rcu`: concurrent `__cds_wfs_pop_*` callers inside
+read-side sections of the real `src/urcu.c`): the events of the real flavor between the scenario's
+CALL/RET markers of `rlock`, `runlock`, `sync`, `register`, `unregister` are not owned by this
+driver and skipped (they are checked by C01's driver); the markers are mapped to the abstract
+grace-period labels (`rlock` at RET rlock, `runlock` at CALL runlock, `gpStart` at CALL sync,
+`gpEnd` at RET sync – where the model's GpSpec guard must hold –, `reclaim` at FREE).
 -/
 open Driver UrcuVerif
 
@@ -19,7 +24,7 @@ def END : Nat := Wfs.END
 def ADAPT : Nat := Gen.CDS_WFS_ADAPT_ATTEMPTS
 
 structure G where
-  c : Wfs.Cfg := { scheme := .mutex }
+  c : Wfs.Cfg := { scheme := .mutex, n := 64 }
   s : Wfs.State := Wfs.init
   legacyMb : Bool := true
   cov : List (String × Nat) := []
@@ -137,8 +142,13 @@ partial def popLoop (t : Nat) (blocking : Bool) : M (String × Bool) := do
         legacyMb
         cover (if nx == END then "pop_last" else "pop_node")
         pure (tokOf h, nx == END)
-      else if !blocking then do cover "pop_wouldblock_cas"; pure ("-1", false)
-      else do cover "pop_cas_retry"; popLoop t blocking
+      else do
+        -- who interfered: the node this popper loaded was popped by a concurrent popper / pop_all
+        -- (possible only without mutual exclusion: RCU scheme), or a push went on top of it
+        let g ← P.get
+        cover (if g.s.nst h != .inStack then "pop_cas_fail_by_pop" else "pop_cas_fail_by_push")
+        if !blocking then do cover "pop_wouldblock_cas"; pure ("-1", false)
+        else do cover "pop_cas_retry"; popLoop t blocking
 
 def pop (t : Nat) (blocking withState locked : Bool) : M Unit := do
   if locked then do P.expect "LOCK" ["lock"]; lab (.lock t)
@@ -202,11 +212,20 @@ def empty (t : Nat) : M Unit := do
 
 def flagOf (s : String) : Bool := s.endsWith "=1"
 
+/-- events of the real RCU flavor: not owned by this driver -/
+partial def skipUntilRet (name : String) : M Unit := do
+  let e ← P.ev s!"… RET {name}" fun e => some e
+  if e.op == "RET" && e.arg 0 == name then pure () else skipUntilRet name
+
 partial def thread (t : Nat) : M Unit := do
   let e ← P.ev "CALL/…" fun e => some e
   match e.op, e.args with
   | "ALLOC", _ => thread t
-  | "FREE", _ => thread t
+  | "RETIRE", _ => do cover "retire"; thread t
+  | "FREE", [n] => do
+      let g ← P.get
+      if g.c.scheme == .rcu then do let k ← node! n; lab (.reclaim k); cover "reclaim_after_gp"
+      thread t
   | "SOLO", _ => do cover "solo_probe"; thread t
   | "SOLOMID", _ => do cover "solo_mid"; thread t
   | "SPAWN", _ => thread t
@@ -223,6 +242,11 @@ partial def thread (t : Nat) : M Unit := do
   | "CALL", ["empty"] => do empty t; thread t
   | "CALL", ["lock"] => do P.expect "LOCK" ["lock"]; lab (.lock t); P.expect "RET" ["lock"]; cover "lock"; thread t
   | "CALL", ["unlock"] => do P.expect "UNLOCK" ["lock"]; lab (.unlock t); P.expect "RET" ["unlock"]; thread t
+  | "CALL", ["rlock"] => do skipUntilRet "rlock"; lab (.rlock t); cover "rlock"; thread t
+  | "CALL", ["runlock"] => do lab (.runlock t); skipUntilRet "runlock"; thread t
+  | "CALL", ["sync"] => do lab .gpStart; skipUntilRet "sync"; lab .gpEnd; cover "grace_period"; thread t
+  | "CALL", ["register"] => do skipUntilRet "register"; thread t
+  | "CALL", ["unregister"] => do skipUntilRet "unregister"; thread t
   | "THREAD_EXIT", _ => pure ()
   | _, _ => P.fail s!"unexpected event outside an API call: {e.show}"
 
@@ -231,6 +255,7 @@ def cfgLine (g : G) (ws : List String) : Except String G :=
     match w.splitOn "=" with
     | ["scheme", "mutex"] => .ok { g with c := { g.c with scheme := .mutex } }
     | ["scheme", "single"] => .ok { g with c := { g.c with scheme := .single } }
+    | ["scheme", "rcu"] => .ok { g with c := { g.c with scheme := .rcu } }
     | ["consumer", n] => .ok { g with c := { g.c with consumer := n.toNat?.getD 0 } }
     | ["legacymb", "0"] => .ok { g with legacyMb := false }
     | ["end", n] => if n.toNat? == some END then .ok g
